@@ -34,6 +34,17 @@ GROUPS = {
     "fn": (["util/fn/root.go", "util/fn/piecewise.go"], False, ["C18"]),
     "dates": (["models/functions/dates.go"], False, ["C19"]),
     "climate": (["models/climate/climate_variables.go"], False, ["C20"]),
+    # second campaign: files and pairings the first one left out
+    "arraysint": (["data/arraysint.go", "util/slice/slice.go"], False, ["C02", "C01"]),
+    "conv": (["conv/slices.go"], False, ["C08"]),
+    "generation": (["models/generation/bank_erosion.go", "models/generation/dissolved_nutrients.go", "models/generation/gully.go",
+                    "models/generation/particulate_nutrients.go", "models/generation/sednet_gully.go", "models/generation/sednet_gully_alt.go",
+                    "models/generation/uslefine.go"], False, ["C16"]),
+    "sim": (["sim/runnable.go", "sim/catalog.go"], False, ["C04", "C17"]),
+    "hotstart": (["models/rr/gr4j.go", "models/rr/sacramento.go", "models/rr/simhyd.go", "models/rr/surm.go", "models/routing/storage_routing.go",
+                  "models/routing/muskingum.go", "models/routing/lag.go", "models/routing/instream_dissolved_nutrient.go",
+                  "models/storage/storage.go", "models/routing/instream_fine_sediment.go", "models/functions/baseflow.go"], False, ["C06", "C14"]),
+    "wrapper2": (["pre/ow-specgen/generated_struct.got"], True, ["C04", "C06", "C10", "C16"]),
 }
 
 SWAPS = [(r" \+ ", " - "), (r" - ", " + "), (r" \* ", " / "), (r" / ", " * "),
